@@ -235,6 +235,144 @@ def full_request(scheme, graphs):
     return {'op': 'c02.full_batch', 'scheme': scheme_json(scheme), 'mols': graphs}
 
 
+# ----------------------------------------------------------------------------- patterns as sets of embeddings (independent of the implementation's reader and matcher)
+def _kids(t, name=None):
+    if not isinstance(t, dict) or (name is not None and t['n'] != name):
+        raise common.MachineryError('unexpected parse-tree node %r (wanted %s)' % (t if not isinstance(t, dict) else t['n'], name))
+    return t['c']
+
+
+def _leaf(t, name):
+    c = _kids(t, name)
+    if len(c) != 1 or not isinstance(c[0], str):
+        raise common.MachineryError('unexpected leaf under %s' % name)
+    return c[0]
+
+
+def _atomtype(t):
+    out = {'prefix': None, 'suffix': None}
+    for c in _kids(t, 'AtomType'):
+        if c['n'] == 'AtomPrefix':
+            out['prefix'] = _leaf(c, 'AtomPrefix')
+        elif c['n'] == 'Symbols':
+            out['sym'] = _leaf(c, 'Symbols')
+        elif c['n'] == 'AtomSuffix':
+            out['suffix'] = _leaf(c, 'AtomSuffix')
+        else:
+            raise common.MachineryError('AtomType child %s' % c['n'])
+    return out
+
+
+def _unchain(cs, chain):
+    out = []
+    while True:
+        out.append(cs[0])
+        if len(cs) == 1:
+            return out
+        cs = _kids(cs[1], chain)
+
+
+def _cn(t):
+    c = _kids(t, 'ConstraintNumber')
+    return (c[0], int(c[1])) if len(c) == 2 else (None, int(c[0]))
+
+
+def _cons(t):
+    (c,) = _kids(t, 'AtomConstraints')
+    kids = list(c['c'])
+    neg = False
+    if kids and isinstance(kids[0], dict) and kids[0]['n'] == 'Boolean':
+        if _leaf(kids[0], 'Boolean') != '!':
+            raise common.MachineryError('Boolean other than !')
+        neg = True
+        kids = kids[1:]
+    if c['n'] == 'AtomConstraintConnectivity':
+        cn = None
+        if kids[0]['n'] == 'ConstraintNumber':
+            cn = _cn(kids[0])
+            kids = kids[1:]
+        t_ = _atomtype(kids[0])
+        bw = _leaf(kids[1], 'BondType') if len(kids) > 1 else None
+        return ('conn', neg, cn, t_, bw)
+    kind = {'AtomConstraintRing': 'ringsize', 'AtomConstraintRadical': 'radical', 'AtomConstraintNRing': 'nring'}[c['n']]
+    return (kind, neg, _cn(kids[0]))
+
+
+def _chain(rest):
+    if not rest:
+        return []
+    return [_cons(x) for x in _unchain(_kids(rest[0], 'AtomConstraintChain'), 'AtomConstraintChain')]
+
+
+def frag_of_ast(t):
+    """parse tree of a fragment -> the structured fragment `lib_embeds` works on (`lib_ringgen_c08`'s form).  Only decodes the
+    tree's shape (which child is which); what the words mean is `lib_embeds`' business."""
+    if t['n'] == 'RINGInput':
+        (t,) = t['c']
+    pre, name, mq = _kids(t, 'Fragment')
+    frag = {'molprefix': list(_kids(pre, 'Prefix')), 'name': name['c'][0], 'items': []}
+    mq = _kids(mq, 'MolQuery')
+    a0 = _kids(mq[0], 'Atom')
+    at = _atomtype(a0[0])
+    at.update(label=_leaf(a0[1], 'AtomLabel'), chain=_chain(a0[2:]), bond=None)
+    frag['items'].append(('atom', at))
+    for it in (_unchain(_kids(mq[1], 'AtomChain'), 'AtomChain') if len(mq) > 1 else []):
+        c = it['c']
+        if it['n'] == 'BondedAtom':
+            at = _atomtype(c[0])
+            at.update(label=_leaf(c[1], 'AtomLabel'), bond=(_leaf(c[2], 'BondType'), _leaf(c[3], 'AtomLabel')), chain=_chain(c[4:]))
+            frag['items'].append(('atom', at))
+        elif it['n'] == 'RingBond':
+            frag['items'].append(('ringbond', _leaf(c[0], 'AtomLabel'), _leaf(c[1], 'BondType'), _leaf(c[2], 'AtomLabel')))
+        elif it['n'] == 'StereoDoubleBond':
+            l1 = _leaf(c[0], 'AtomLabel')
+            rest = c[1:]
+            neg = False
+            if rest[0]['n'] == 'Boolean':
+                neg = True
+                rest = rest[1:]
+            frag['items'].append(('stereo', l1, neg, _leaf(rest[0], 'DoubleBondStereoType'), _leaf(rest[1], 'AtomLabel'),
+                                  _leaf(rest[2], 'AtomLabel'), _leaf(rest[3], 'AtomLabel')))
+        else:
+            raise common.MachineryError('AtomChain item %s' % it['n'])
+    return frag
+
+
+_FRAG = {}
+
+
+def embed_matcher(graph):
+    """a `matcher` for `scheme_input`: the matches of a pattern are the embeddings its text denotes in `graph`
+    (`lib_embeds`, written from the property text of C08) — neither the implementation's reader, nor its matcher, nor RDKit's."""
+    from . import lib_ast, lib_embeds
+    G = lib_embeds.Graph(graph)
+
+    def matcher(query, mol):
+        text = text_of(query)
+        if text not in _FRAG:
+            _FRAG[text] = frag_of_ast(lib_ast.parse_to_json(text))
+        r = lib_embeds.embeddings(_FRAG[text], graph, G=G)
+        if isinstance(r, tuple) and r and r[0] == 'error':
+            raise common.MachineryError('a shipped pattern is unreadable for the oracle: %r' % text)
+        return [list(f) for f in r]
+    return matcher
+
+
+def declared_full(scheme, x):
+    """The declared decomposition of input `x` with every pattern read as the set of its embeddings, on the graph normalised
+    and Benson-aromatised by the harness: independent of the implementation's normalisation, perception, reader and matcher
+    (it shares the implementation's *parser*, which is C09's subject).  None when RDKit cannot parse the input."""
+    from . import lib_mol
+    mol = prepare(x)
+    if mol is None:
+        return None
+    try:
+        g = lib_mol.mol_to_json(mol)
+    except lib_mol.UnsupportedGraph:
+        return None
+    return declared(scheme_input(scheme, mol, embed_matcher(g)))
+
+
 # ----------------------------------------------------------------------------- the declarative interpretation (spec oracle)
 def canon_name(csg, psgs):
     c = collections.Counter(psgs)
@@ -296,3 +434,96 @@ def add_counts(a, b):
         for k, v in d.items():
             out[k] += v
     return dict(out)
+
+
+# ----------------------------------------------------------------------------- second correspondence: end to end from the raw graph
+def hook_graph(lib):
+    """aromatic flags and bond kinds of the molecule the implementation annotated in its last successful decomposition
+    (guarded hook): what `_aromatization_Benson` made of the input, as the implementation itself saw it"""
+    from . import lib_mol
+    m = getattr(lib.scheme, '_verif_last_mol', None)
+    if m is None:
+        return None
+    try:
+        g = lib_mol.mol_to_json(m)
+    except lib_mol.UnsupportedGraph:
+        return None
+    return {'arom': [a[3] for a in g['atoms']], 'kinds': [b[2] for b in g['bonds']]}
+
+
+class FullTie(object):
+    """`GetDescriptors(x)` vs the end-to-end Lean model `PGA.Decompose.decompose` (driver op `c02.full_batch`): the model gets
+    the raw graph (normalised by the harness with RDKit, NOT aromatised), the parse trees of the scheme's pattern texts and
+    the remap table; it aromatises, reads, matches and decomposes itself.  Molecules are batched per scheme object (the
+    scheme travels once per request).  Compared: descriptors or failure, per-atom centre/peripheral/group names, and the
+    aromatised graph (flags, bond kinds) against the molecule the implementation annotated."""
+    CAP = 10000
+
+    def __init__(self, ctx, max_atoms=None, max_cases=None):
+        self.ctx = ctx
+        self.by = collections.OrderedDict()
+        self.max_atoms = max_atoms
+        self.max_cases = max_cases
+        self.n = 0
+
+    def add(self, lib, x, impl, where, atoms=None, hook=None):
+        ctx = self.ctx
+        if self.max_cases is not None and self.n >= self.max_cases:
+            ctx.count('full_not_run_budget')
+            return
+        g = raw_graph(x)
+        if g is None:
+            ctx.count('full_no_graph')
+            return
+        if self.max_atoms is not None and len(g['atoms']) > self.max_atoms:
+            ctx.count('full_skipped_over_%d_atoms' % self.max_atoms)
+            return
+        self.n += 1
+        self.by.setdefault(id(lib.scheme), [lib.scheme, []])[1].append((g, impl, where, atoms, hook))
+
+    def run(self):
+        ctx = self.ctx
+        groups = list(self.by.values())
+        self.by = collections.OrderedDict()
+        self.n = 0
+        if not groups:
+            return
+        replies = ctx.model([full_request(s, [c[0] for c in cases]) for s, cases in groups])
+        if replies is None:
+            return
+        for (s, cases), rep in zip(groups, replies):
+            if 'loaderr' in rep:
+                ctx.disagree('corr:c02.full', cases[0][2], 'scheme loaded', rep)
+                continue
+            table = {str(k): str(v[0][1]) for k, v in s.remaps.items() if v}
+            for (g, impl, where, atoms, hook), r in zip(cases, rep['res']):
+                ctx.count('corr_c02.full')
+                ctx.count('full_atoms_%03d' % (10 * (len(g['atoms']) // 10)))
+                if not (r['wf'] and r['bonded']):
+                    raise common.MachineryError('A-graph: the model finds the extracted graph ill-formed (wf=%s, rings bonded=%s) for %r'
+                                                % (r['wf'], r['bonded'], where))
+                if r['maxraw'] >= self.CAP:
+                    ctx.count('full_cap_reached')      # which 10 000 candidates RDKit keeps is not modelled (F30)
+                    continue
+                ctx.count('full_cap_inactive')
+                self.maxraw = max(getattr(self, 'maxraw', 0), r['maxraw'])
+                if 'err' in r or 'err' in impl:
+                    if r.get('err') != impl.get('err'):
+                        ctx.disagree('corr:c02.full', where, impl, {k: r[k] for k in ('ok', 'err') if k in r})
+                    continue
+                model = {k: common.unjrat(v) for k, v in r['ok']}
+                if not same_counts(impl['ok'], model):
+                    ctx.disagree('corr:c02.full', where, impl['ok'], {k: float(v) for k, v in model.items()})
+                    continue
+                if atoms is not None and r['atoms'] is not None and len(atoms) == len(r['atoms']):
+                    ma = [[c, p, table.get(gn, gn)] for c, p, gn in r['atoms']]
+                    if ma != atoms:
+                        bad = [i for i in range(len(ma)) if ma[i] != atoms[i]][:3]
+                        ctx.disagree('corr:c02.full.atoms', dict(where, atoms=bad), [atoms[i] for i in bad], [ma[i] for i in bad])
+                    ctx.count('corr_c02.full.atoms')
+                if hook is not None and len(hook['arom']) == len(r['arom']):
+                    if hook['arom'] != r['arom'] or hook['kinds'] != r['kinds']:
+                        ctx.disagree('corr:c02.full.aromatize', where, hook, {'arom': r['arom'], 'kinds': r['kinds']})
+                    ctx.count('corr_c02.full.aromatize')
+                    if any(r['arom']):
+                        ctx.count('corr_c02.full.aromatize_with_aromatic_ring')
